@@ -50,7 +50,7 @@ def fail_tokens(kind):
 ALL_KINDS = ["xor_add", "mul", "div", "mod", "sdiv", "addmod", "mulmod", "exp", "bytes_len", "arr_sum", "unsat", "two_args", "storage",
                       "signed", "shift", "nested_assert", "conj3", "loop_guard", "arr_loop", "bytes_tail", "disarm", "storage", "storage2",
                       "smod_zero", "mod_zero", "div_zero", "sdiv_zero", "addmod_zero", "mulmod_zero",
-                      "div_zero_hit", "mod_zero_hit", "sdiv_zero_hit", "smod_zero_hit", "nested_stuck", "mul_exp", "two_fail", "multi_width", "vmassert_hard", "arr_len_mul"]
+                      "div_zero_hit", "mod_zero_hit", "sdiv_zero_hit", "smod_zero_hit", "nested_stuck", "mul_exp", "two_fail", "multi_width", "vmassert_hard", "arr_len_mul", "two_dyn"]
 
 
 def gen_test(rng, idx, failure=None, kinds=None):
@@ -243,6 +243,16 @@ def gen_test(rng, idx, failure=None, kinds=None):
         body = ([0, ":top", "DUP1"] + arg(0) + ["EQ", "@done", "JUMPI", 1, "ADD", "DUP1", 40, "LT", "@done", "JUMPI", "@top", "JUMP",
                  ":done", k, "EQ"] + arg(0) + [k, "EQ", "AND", "@bad", "JUMPI", "STOP"] + bad)
         return GenTest(Fn(name, [("n", U)], body), [[k]], True, kind, failure, feats | {"loop"}, min_loop=k)
+    if kind == "two_dyn":
+        # two dynamically sized parameters: fail iff both have one particular combination of candidate lengths (every one of the
+        # 3 x 3 combinations of default size candidates has to be explored, whichever sibling path was finished before)
+        if rng.random() < 0.5:
+            typ, cands, mk = ("bytes",), [0, 65, 1024], (lambda n: bytes(n))
+        else:
+            typ, cands, mk = ("array", U, None), [0, 1, 2], (lambda n: [0] * n)
+        L0, L1 = rng.choice(cands), rng.choice(cands)
+        body = (arg(0) + [4, "ADD", "CALLDATALOAD", L0, "EQ"] + arg(1) + [4, "ADD", "CALLDATALOAD", L1, "EQ", "AND", "@bad", "JUMPI", "STOP"] + bad)
+        return GenTest(Fn(name, [("a", typ), ("b", typ)], body), [[mk(L0), mk(L1)]], True, kind, failure, feats | {"dynamic", "two-dynamic"})
     if kind == "arr_loop":
         # sum over a uint256[] a ; fail iff length == L and sum == K
         L = rng.randrange(1, 4)
